@@ -1069,10 +1069,10 @@ void output_text(FILE *pfile)
 
             size_t min_col = cpd.column;
 
-            // two words never touch, whatever the alignment and indent passes computed
+            // two words (or a word and a number) never touch, whatever the alignment and indent passes computed
             if (  cpd.last_char > 0
                && CharTable::IsKw2(cpd.last_char)
-               && CharTable::IsKw1(pc->GetStr()[0]))
+               && CharTable::IsKw2(pc->GetStr()[0]))
             {
                min_col++;
             }
